@@ -208,7 +208,7 @@ func harnessC10() {
 	vAssert(len(recs) >= 1, "C10: a log record is emitted for the line")
 	r := recs[0]
 	switch {
-	case jsKind == 1 && !tsBad && jsMsg == 1 && jsLvl == 1 && (jsLevel == "trace" || jsLevel == "debug" || jsLevel == "info" || jsLevel == "warn" || jsLevel == "error"):
+	case jsKind == 1 && !tsBad && jsTS != 2 && jsMsg == 1 && jsLvl == 1 && (jsLevel == "trace" || jsLevel == "debug" || jsLevel == "info" || jsLevel == "warn" || jsLevel == "error"):
 		vCover("hclog-json")
 		vAssert(r.level == jsLevel, "C10: hclog JSON record is logged at its own level")
 		vAssert(r.msg == jsMessage, "C10: hclog JSON record carries its message")
